@@ -510,6 +510,44 @@ class Plan:
                 cases.append(c)
             self.add_group("C11", cases, "spellings")
 
+    # -- E: hostile scope contexts (C16): same declaration and configuration, other surroundings
+    def contexts(self, kappas=("match_nab", "table_table", "auto", "inline", "range")):
+        import contexts as cx
+        rng = self.rng
+        for r, reals in (("i8", [-2, -1, 0, 1]), ("u16", [0, 1, 5, 6, 9]), ("i64", [-9, -8, 3])):
+            gapless = runs_of(reals) == 1
+            vs = decorate(reals, r, rng, "renames", "shuffle", "dec")
+            p = prim.Proj(r)
+            probes = sorted({p.to_model(x + d) for x in reals for d in (-1, 0, 1) if prim.tmin(r) <= x + d <= prim.tmax(r)}
+                            | {p.model_tmin(), p.model_tmax()})
+            script = make_script(vs, r, probes, rng, level="light", str_cap=16, pairs_cap=9)
+            for lab, cfg in kappa_list(gapless):
+                if lab not in kappas:
+                    continue
+                cases = [self.new_case(r, vs, cfg, script, f"ctx:{lab}:{c}", ctx=c) for c in cx.ORDER]
+                self.add_group("C16", cases, "contexts")
+
+    # -- H: renamed items (C15): behaviour through the requested names equals behaviour through the defaults
+    def renamed(self):
+        rng = self.rng
+        for r, reals in (("i16", [-3, -2, 4, 5, 6]), ("u8", [0, 1, 2])):
+            gapless = runs_of(reals) == 1
+            vs = decorate(reals, r, rng, "renames", "shuffle", "dec")
+            p = prim.Proj(r)
+            probes = sorted({p.to_model(x + d) for x in reals for d in (-1, 0, 1) if prim.tmin(r) <= x + d <= prim.tmax(r)})
+            script = make_script(vs, r, probes, rng, level="light", str_cap=16, pairs_cap=9)
+            for lab, cfg in kappa_list(gapless)[:4]:
+                ren = {f: {"name": f"r_{f.lower()}", "vis": "pub"} for f in render.DEFAULT_NAME}
+                ren["iter"]["struct_name"] = "MyIter"
+                ren["names"]["struct_name"] = "MyNames"
+                some = {f: ({"name": f"x{f.lower()}"} if i % 2 else {"vis": "pub"}) for i, f in enumerate(render.DEFAULT_NAME)}
+                variants = [cfg]
+                for extra in (ren, some):
+                    feats = [(f, dict(pr, **extra.get(f, {}))) for f, pr in cfg["feats"]]
+                    variants.append({"feats": feats, "split": cfg.get("split", "one")})
+                cases = [self.new_case(r, vs, c, script, f"ren:{lab}:{i}") for i, c in enumerate(variants)]
+                self.add_group("C15", cases, "renamed")
+
     # -- F: large enums, random histories
     def large(self, sizes):
         rng = self.rng
@@ -594,6 +632,8 @@ def build_plan(tier, seed):
         pl.config_matrix(n_sparse=10)
         pl.perms_reprs(30)
         pl.spellings(40)
+        pl.contexts()
+        pl.renamed()
         pl.large([60, 300, 1200])
     else:
         pl.shapes(prim.REPRS, per_repr_small=None, per_repr_large=400, kappas_per_shape=3)
@@ -601,6 +641,8 @@ def build_plan(tier, seed):
         pl.config_matrix(n_sparse=60)
         pl.perms_reprs(300)
         pl.spellings(300)
+        pl.contexts()
+        pl.renamed()
         pl.large([60, 127, 250, 300, 700, 1200, 2000, 5000])
     return pl
 
@@ -633,7 +675,7 @@ debug = false
 """
 
 
-def write_crate(pl, outdir, cases_per_bin=120, ctx_preludes=None):
+def write_crate(pl, outdir, cases_per_bin=120):
     """returns meta: {"bins": [{"name", "src", "script", "cases":[{id, grp, gprop, label, start, decl, glue}]}]}"""
     import shutil
     here = os.path.dirname(os.path.abspath(__file__))
@@ -657,7 +699,9 @@ def write_crate(pl, outdir, cases_per_bin=120, ctx_preludes=None):
         cnt += len(g["cases"])
     if cur:
         bins.append(cur)
-    meta = {"bins": []}
+    import contexts as cx
+    meta = {"bins": [], "lib": {"src": "src/lib.rs", "cases": []}}
+    lib = ["#![no_std]", "#![allow(warnings)]"]
     for bi, groups in enumerate(bins):
         name = f"b{bi:03d}"
         src = ["#![allow(warnings)]"]
@@ -665,8 +709,18 @@ def write_crate(pl, outdir, cases_per_bin=120, ctx_preludes=None):
         mains = []
         for g in groups:
             for c in g["cases"]:
-                prelude = (ctx_preludes or {}).get(c.get("ctx", "plain"))
-                lines, d, gl = render.case_module(c, prelude)
+                ctx = c.get("ctx", "plain")
+                prelude = cx.CONTEXTS[ctx]
+                libspan = None
+                if ctx.startswith("no_std"):
+                    # the declaration lives in the #![no_std] library of this package; the glue stays in the (std) binary
+                    dl, dr = render.decl_module(c, prelude)
+                    ls = len(lib)
+                    lib += dl
+                    libspan = {"start": ls, "end": ls + len(dl), "decl": [ls + dr[0], ls + dr[1]]}
+                    lines, d, gl = render.case_module(c, None, extern_decl=f"::rtcorpus::c{c['id']}::d")
+                else:
+                    lines, d, gl = render.case_module(c, prelude)
                 start = len(src)
                 src += lines
                 mains.append(f"c{c['id']}::g::case")
@@ -687,7 +741,9 @@ def write_crate(pl, outdir, cases_per_bin=120, ctx_preludes=None):
                 bm.append({"id": c["id"], "grp": g["id"], "gprop": g["gprop"], "kind": g["kind"], "label": c["label"],
                            "repr": c["repr"], "n": len(c["variants"]), "start": start, "end": start + len(lines),
                            "decl": [start + d[0], start + d[1]], "glue": [start + gl[0], start + gl[1]],
-                           "attrs": render.attr_lines(c["cfg"]), "ctx": c.get("ctx", "plain")})
+                           "attrs": render.attr_lines(c["cfg"]), "ctx": c.get("ctx", "plain"), "lib": libspan})
+                if libspan:
+                    meta["lib"]["cases"].append({"id": c["id"], **libspan})
         src.append("fn main() { ::rt::main(vec![")
         main_line = len(src)
         for m in mains:
@@ -698,6 +754,8 @@ def write_crate(pl, outdir, cases_per_bin=120, ctx_preludes=None):
         open(os.path.join(outdir, "scripts", name + ".txt"), "w").write("\n".join(script) + "\n")
         meta["bins"].append({"name": name, "src": f"src/bin/{name}.rs", "script": f"scripts/{name}.txt",
                              "cases": bm, "main_line": main_line})
+    open(os.path.join(outdir, "src", "lib.rs"), "w").write("\n".join(lib) + "\n")
+    open(os.path.join(outdir, "src", "lib.rs.orig"), "w").write("\n".join(lib) + "\n")
     json.dump(meta, open(os.path.join(outdir, "meta.json"), "w"))
     return meta
 
